@@ -1,6 +1,6 @@
 (* props/C18.v - C18: the temperature follows the requested annealing schedule. *)
 From Coq Require Import ZArith NArith List Bool Reals Floats.
-From PV Require Import Num NumR model.Optimiser model.OptSpec proofs.OptStruct proofs.OptLoop proofs.FloatFacts proofs.RealFacts.
+From PV Require Import Num NumR model.Optimiser model.OptSpec proofs.OptStruct proofs.OptLoop proofs.FloatFacts proofs.FloatZero proofs.HillClimb proofs.RealFacts.
 
 Theorem C18_kt_schedule :
   forall (NN : Num) (fexp : carrier NN -> carrier NN) (score : N -> list (carrier NN) -> option
@@ -68,4 +68,12 @@ Theorem C18_zero_stays_zero_real :
   forall (f : R) (k : nat), cooled NumR 0%R f k = 0%R.
 Proof. exact R_cooled_zero. Qed.
 Print Assumptions C18_zero_stays_zero_real.
+
+Theorem C18_zero_stays_zero_binary64 :
+  forall (fexp : F -> F) (fpow : F -> F -> F) (score : N -> list F -> option F) (b : builder
+    NumF) (ps : list (carrier NumF)) (hs : list (handle NumF)) (s0 : F) (draws : list (draw
+    NumF)), b_kt_start NumF b = 0%float -> ratio_ok b -> let c := build NumF fpow b in kt NumF
+    (run NumF fexp score c (init NumF c ps hs s0) draws) = 0%float.
+Proof. exact HillClimb.C05_zero_temperature_stays_zero. Qed.
+Print Assumptions C18_zero_stays_zero_binary64.
 
